@@ -132,6 +132,8 @@ def run(ctx):
         anchors = [("A", t, r.choice([0, 1, r.randrange(0, 10**8)])) for t in sorted(r.sample(ticks, min(len(ticks), r.choice([0, 1, 3, 8]))))]
         case = {"id": f"s{k}", "res": res_, "sync": [("B", t, n) for t, n in tempo] + [("TS", 0, 4)] + anchors, "events": [],
                 "tracks": {"ExpertSingle": body, "HardSingle": [("S", 0, 5)]}}
+        if k % 2:
+            case["song_extra"] = tm.random_metadata_lines(r)         # (an audio Offset, preview bounds ...: they have no say in the rate)
         try:
             chart = parse(tm.case_text(case))
         except Exception:  # noqa: BLE001 - rejected inputs are C01's business
